@@ -24,12 +24,27 @@ pub fn get_message(squitter: &str) -> Option<Vec<u32>> {
         .filter(|message| matches!(message.len(), 14 | 28))
         .filter(|message| reminder(message) == 0)
         .filter(|message| is_length_of_format(message))
+        .filter(|message| is_parity_valid(message))
 }
 
 /// DF 0-15 are 56-bit frames, DF 16-31 are 112-bit frames.
 fn is_length_of_format(message: &[u32]) -> bool {
     let df = (message[0] << 1) | (message[1] >> 3);
     (df < 16) == (message.len() == 14)
+}
+
+/// DF17/18 carry plain parity (remainder must be zero), DF11 parity is
+/// overlaid with the interrogator code in the low 7 bits.
+/// Other formats overlay the address, so nothing can be checked here.
+fn is_parity_valid(message: &[u32]) -> bool {
+    let df = (message[0] << 1) | (message[1] >> 3);
+    let len = (message.len() * 4) as u32;
+    let syndrome = || crate::range_value(message, len - 23, len).map(|p| p ^ get_crc(message, df));
+    match df {
+        17 | 18 => syndrome() == Some(0),
+        11 => syndrome().is_some_and(|s| s & 0xFFFF80 == 0),
+        _ => true,
+    }
 }
 
 pub(crate) fn get_hex_message(message: &[u32]) -> String {
